@@ -323,6 +323,8 @@ def panic_class(loc, msg=""):
         return "rem-i32-min-by-minus-one"
     if "operations.rs" in loc and "negate with overflow" in msg:
         return "neg-i32-min-overflow-checked"
+    if "builtins/string/mod.rs" in loc and "negate with overflow" in msg:
+        return "string-at-i64-min"
     repo = vlib.REPO.rstrip("/") + "/"
     if loc.startswith(repo):
         loc = loc[len(repo):]
@@ -534,6 +536,98 @@ def grid_stage(run, bins, model, avs, bvs, sample_vals):
 
 
 # ----------------------------------------------------------------------------------------------------------
+# deepening round: index kernels (coq/Gen/IndexPaths.v) against the builtins they were translated from
+
+IDX_INPUTS = ["0", "1", "2", "4", "5", "6", "-1", "-2", "-5", "-6", "-7", "2147483648", "-2147483649", "9007199254740992",
+              "-9007199254740992", "1e30", "-1e30", "Infinity", "-Infinity", "NaN", "0.9", "-0.9", "1.5", "-1.5", "-9223372036854775808"]
+IDX_LENS = [5, 1, 0]
+I64_MIN, I64_MAX = -2 ** 63, 2 ** 63 - 1
+
+
+def ioi_of(txt):
+    x = float(txt)
+    if x != x or abs(x) < 1:
+        return "(IInt 0)", 0
+    if x == math.inf:
+        return "IPosInf", None
+    if x == -math.inf:
+        return "INegInf", None
+    v = max(I64_MIN, min(I64_MAX, int(x)))          # Rust `as i64` saturates
+    return "(IInt (%d))" % v, v
+
+
+# site -> (JS program template over S (string literal), A (array literal), X; how to read the model's index)
+def _idx_sites():
+    rd = lambda body: "(function(){ var S = %(S)s, A = %(A)s; " + body + " })()"
+    return {
+        "string_at": (rd("var r = S.at(%(X)s); return r === undefined ? -1 : r.charCodeAt(0) - 97;"), lambda k, n: k if k is not None and 0 <= k < n else (-1 if k is None else "P")),
+        "array_at": (rd("var r = A.at(%(X)s); return r === undefined ? -1 : r;"), lambda k, n: k if k is not None and 0 <= k < n else -1),
+        "typed_array_at": (rd("var r = new Uint8Array(A).at(%(X)s); return r === undefined ? -1 : r;"), lambda k, n: k if k is not None and 0 <= k < n else -1),
+        "string_slice_from": (rd("return S.slice(%(X)s).length;"), lambda k, n: n - k),
+        "string_slice_to": (rd("return S.slice(0, %(X)s).length;"), lambda k, n: k),
+        "array_relative_start": (rd("return A.slice(%(X)s).length;"), lambda k, n: n - k),
+        "array_relative_end": (rd("return A.slice(0, %(X)s).length;"), lambda k, n: k),
+        "array_last_index_of_from": (rd("return A.map(function(){ return 7; }).lastIndexOf(7, %(X)s);"), lambda k, n: -1 if (k is None or k < 0 or n == 0) else k),
+    }
+
+
+def index_stage(run, bins):
+    """Model (vm_compute on the regenerated definitions) vs. the builtins, on edge relative indices.  Returns
+    (mismatches, panics)."""
+    sites = _idx_sites()
+    names = sorted(sites)
+    iois = [ioi_of(x) for x in IDX_INPUTS]
+    terms = []
+    for prof in ("Debug", "Release"):
+        for nm in names:
+            for n in IDX_LENS:
+                terms.append("[" + "; ".join("enc_res_idx (%s %s %d %s)" % (nm, prof, n, c) for c, _ in iois) + "]")
+    body = ("From Coq Require Import ZArith List.\nFrom C02 Require Import Model_C02 DeepModel_C02.\nFrom Gen Require Import IndexPaths.\n"
+            "Import ListNotations.\nLocal Open Scope Z_scope.\nEval vm_compute in [\n%s\n]." % ";\n".join(terms))
+    rc, out, err = vlib.coq_eval("Idx_C02", body, timeout=900)
+    if rc != 0:
+        return [{"what": "index model evaluation failed: " + (err or out)[-600:]}], [], None
+    data = parse_nested(out[out.find("= ") + 2:])
+    model, it = {}, iter(data)
+    for prof in ("debug", "release"):
+        for nm in names:
+            for n in IDX_LENS:
+                model[(prof, nm, n)] = next(it)
+    mism, panics, cnt = [], [], 0
+    for prof, binpath in bins.items():
+        lines, meta = [], []
+        for nm in names:
+            tmpl, rd = sites[nm]
+            for n in IDX_LENS:
+                S = '"%s"' % "abcde"[:n]
+                A = "[%s]" % ", ".join(str(i) for i in range(n))
+                for k, x in enumerate(IDX_INPUTS):
+                    cid = "i:%s:%d:%d" % (nm, n, k)
+                    lines.append("val %s %s" % (cid, esc(tmpl % {"S": S, "A": A, "X": "(%s)" % x})))
+                    meta.append((cid, nm, n, x, model[(prof, nm, n)][k], rd))
+        res, events = run_resilient(binpath, 256, "cfg fresh=0", [(l.split(" ")[1], l) for l in lines], 120)
+        for cid, nm, n, x, enc, rd in meta:
+            g = (res.get(cid) or ["<no-output>"])[0]
+            cnt += 1
+            run.count((prof, "index", nm, n, x))
+            if enc[0] == 0:
+                exp = "P"
+            else:
+                exp = rd(enc[1] if enc[0] == 1 else None, n)
+            if g.startswith("P:"):
+                cls = ("string-at-i64-min" if nm == "string_at" else "array-at-i64-min" if nm == "array_at" else "index-%s-panic" % nm)
+                panics.append({"build": prof, "route": "index", "op": nm, "a": n, "b": 0, "x": x, "impl": g, "model_agrees": exp == "P", "class": cls,
+                               "program": sites[nm][0] % {"S": '"%s"' % "abcde"[:n], "A": "[%s]" % ", ".join(str(i) for i in range(n)), "X": "(%s)" % x}})
+            ok = g.startswith("P:") if exp == "P" else as_number(g) == as_number("I%d" % exp)
+            if not ok:
+                mism.append({"build": prof, "route": "index", "op": nm, "len": n, "x": x, "model": exp, "impl": g})
+    run.cov["index_cases"] = cnt
+    gaps = {"string_at_open": model[("debug", "string_at", 1)][IDX_INPUTS.index("-1e30")][0] == 0,
+            "array_at_open": model[("debug", "array_at", 1)][IDX_INPUTS.index("-1e30")][0] == 0}
+    return mism, panics, gaps
+
+
+# ----------------------------------------------------------------------------------------------------------
 # the search part
 
 def hexline(cid, data):
@@ -734,6 +828,24 @@ def case_json(c):
 
 # ----------------------------------------------------------------------------------------------------------
 
+def pending_known():
+    """Findings of the deepening round that are reported to the coordinator (fix patch in fixes.d/) and await a decision:
+    fixes.d/C02-pending-findings.json.  They are matched like known findings -- by the class computed from the failing
+    case -- and printed with a [PENDING] prefix, so the check stays usable as a regression gate meanwhile.  Deleting an
+    entry (or the file) turns the class back into a VIOLATION; applying the fix closes the gap and the entry is moot."""
+    p = os.path.join(vlib.VERIF, "fixes.d", "C02-pending-findings.json")
+    try:
+        extra = json.load(open(p))["findings"]
+    except (OSError, ValueError, KeyError):
+        return
+    kf = vlib.known_findings()
+    have = {(k["property"], k["class"]) for k in kf.get("findings", [])}
+    for e in extra:
+        if (e["property"], e["class"]) not in have:
+            e = dict(e, what="[PENDING coordinator decision] " + e["what"])
+            kf.setdefault("findings", []).append(e)
+
+
 def proposed_known():
     """Testing aid: VERIF_C02_PROPOSED_KNOWN=1 additionally treats the classes proposed in
     fixes.d/C02-known-findings.proposed.json as known findings (default: off)."""
@@ -764,6 +876,7 @@ def release_build(timeout=6000):
 
 def main():
     run = Run(PROP, "proof")
+    pending_known()
     proposed_known()
     quick = run.quick
     run.cov["rule"] = ("kernel cases: (build, route, operator, a, b) over the boundary grid of %d x %d i32 edge values (+ seeded random), routes = opcode handler via "
@@ -779,6 +892,19 @@ def main():
         run.cov["translator"] = {"sources": [gen_c02.OPS_RS, gen_c02.INC_RS, gen_c02.DEC_RS, gen_c02.BIN_RS, gen_c02.JUMP_RS],
                                  "fast_helpers": len(info["fast"]), "ops_arms": len(info["ops"]) + 1, "unary": info["unary"],
                                  "opcode_wiring_checked": info["opcodes"]}
+        import gen_c02b
+        text2, info2 = gen_c02b.generate(vlib.REPO)
+        vlib.write_if_changed(os.path.join(vlib.COQ, "Gen", "IndexPaths.v"), text2)
+        ex = info2["js_expect_sites"]
+        bycls = {}
+        for e in ex:
+            bycls[e["class"]] = bycls.get(e["class"], 0) + 1
+        run.cov["index_translator"] = {"sources": list(gen_c02b.FILES.values()), "pinned_sites": [x["name"] for x in info2["pinned"]],
+                                       "other_sites_translated": [x["site"] for x in info2["other_translated"]], "sites_refused": info2["refused"]}
+        run.cov["expect_sites"] = {"total": len(ex), "by_class": bycls,
+                                   "js_expect_reachable_by_runtime_limit": ["%s:%d %s" % (e["file"], e["line"], e["message"]) for e in ex
+                                                                           if e["class"].startswith("js_expect:may-run")][:80],
+                                   "note": "evidence only: syntactic enumeration (js_expect/expect with a literal message) with a 6-line context heuristic"}
     except Exception as e:
         broken = {"kind": "translator", "detail": {"error": "%s: %s" % (type(e).__name__, e)}}
     # 2. proofs + gates
@@ -837,6 +963,12 @@ def main():
                     if gaps[k].startswith("FAILED"):
                         broken = {"kind": "proof", "detail": {"error": "%s: %s" % (k, gaps[k])}}
             corr_bad, kernel_panics = grid_stage(run, bins, model, avs, bvs, sample_vals)
+    if broken is None:
+        imism, ipanics, igaps = index_stage(run, bins)
+        corr_bad += imism
+        kernel_panics += ipanics
+        if igaps is not None:
+            run.cov.setdefault("gaps", {}).update(igaps)
     if broken is not None and not kernel_panics:
         # proof / translator / model broken: enlarged implementation-only grid, oracle = no panic
         _, kernel_panics = grid_stage(run, bins, None, avs, bvs, sample_vals)
